@@ -1,57 +1,30 @@
-//! Selectors (C06/C07/…): real ec-core selectors vs. the Lean model, tape-level.
+//! Family `sel` (C07, part of C06): Best / Worst / Random / Tournament of ec-core vs. the Lean model,
+//! tape-level, plus the property oracles of C07 on the real code.
+use crate::mutants;
 use crate::prims;
 use crate::report::Report;
 use crate::rng::SplitMix;
+use crate::selcommon::*;
 use crate::shard::run_sharded;
 use crate::Cfg;
-use ec_core::individual::ec::EcIndividual;
 use ec_core::operator::selector::{best::Best, random::Random, tournament::Tournament, worst::Worst, Selector};
-use ec_core::test_results::{Error, Score, TestResults};
+use rand::prelude::IndexedRandom;
 use rand::RngCore;
 use serde_json::json;
 use std::num::NonZeroUsize;
 
-type IndS = EcIndividual<usize, TestResults<Score<i64>>>;
-type IndE = EcIndividual<usize, TestResults<Error<i64>>>;
-
-#[derive(Clone, Debug)]
-pub enum SelCfg {
-    Best,
-    Worst,
-    Random,
-    Tournament(usize),
-}
-impl SelCfg {
-    fn token(&self) -> String {
-        match self {
-            SelCfg::Best => "best".into(),
-            SelCfg::Worst => "worst".into(),
-            SelCfg::Random => "random".into(),
-            SelCfg::Tournament(k) => format!("tournament {k}"),
-        }
-    }
-}
-
-/// index of the returned reference inside the population slice (identity, not equality)
-fn index_of<T>(pop: &[T], r: &T) -> Option<usize> {
-    pop.iter().position(|x| std::ptr::eq(x, r))
-}
-
-fn run_real<I: Ord>(sel: &SelCfg, pop: &Vec<I>, rng: &mut SplitMix) -> String {
+fn run_real<R: Ord>(leaf: &Leaf, pop: &Vec<Ind<R>>, rng: &mut SplitMix) -> String {
     let res = std::panic::catch_unwind(std::panic::AssertUnwindSafe(|| -> Result<usize, String> {
-        match sel {
-            SelCfg::Best => Best.select(pop, rng).map(|r| index_of(pop, r).expect("not a member")).map_err(|_| "EmptyPopulation".to_string()),
-            SelCfg::Worst => Worst.select(pop, rng).map(|r| index_of(pop, r).expect("not a member")).map_err(|_| "EmptyPopulation".to_string()),
-            SelCfg::Random => Random.select(pop, rng).map(|r| index_of(pop, r).expect("not a member")).map_err(|_| "EmptyPopulation".to_string()),
-            SelCfg::Tournament(k) => Tournament::new(NonZeroUsize::new(*k).unwrap())
-                .select(pop, rng)
-                .map(|r| index_of(pop, r).expect("not a member"))
-                .map_err(|e| {
-                    let s = format!("{e}");
-                    // "Tournament size {k} was larger than population size {n}"
-                    let nums: Vec<&str> = s.split(|c: char| !c.is_ascii_digit()).filter(|x| !x.is_empty()).collect();
-                    format!("TournamentSize({},{})", nums[0], nums[1])
-                }),
+        if let Some(r) = mutants::basic(leaf, pop, rng) {
+            return r.map(|x| index_of(pop, x).expect("not a member"));
+        }
+        let idx = |r: &Ind<R>| index_of(pop, r).map_or_else(|| Err("NOT-A-MEMBER".to_string()), Ok);
+        match leaf {
+            Leaf::Best => Best.select(pop, rng).map_err(|e| e.canon()).and_then(idx),
+            Leaf::Worst => Worst.select(pop, rng).map_err(|e| e.canon()).and_then(idx),
+            Leaf::Random => Random.select(pop, rng).map_err(|e| e.canon()).and_then(idx),
+            Leaf::Tournament(k) => Tournament::new(NonZeroUsize::new(*k).unwrap()).select(pop, rng).map_err(|e| e.canon()).and_then(idx),
+            _ => unreachable!(),
         }
     }));
     match res {
@@ -61,68 +34,177 @@ fn run_real<I: Ord>(sel: &SelCfg, pop: &Vec<I>, rng: &mut SplitMix) -> String {
     }
 }
 
-const RULE: &str = "seeded selector configurations (best/worst/random/tournament k around the population size) on \
-populations of EcIndividual with Score and Error results (empty, singleton, all-equal, tie-laden, random); the model's \
-requests are answered by the same rand call on a shadow generator; compared: selected index (pointer identity), error, \
-and the next word of the real and the shadow generator; non-trivial = population of at least 2 individuals and a random draw consumed; \
+const RULE: &str = "seeded selector configurations (best/worst/random/tournament k in 1..=n and n+1) on populations of \
+EcIndividual with Score and Error results (empty, singleton, all-equal, duplicate-laden, random); the model's requests are \
+answered by the same rand call on a shadow generator; compared: selected index (pointer identity), error, and the next word \
+of the real and the shadow generator; property oracles on the real result: best/worst is a maximum/minimum under the real Ord, \
+tournament winner is at least as good as k-1 others, equals the best of the drawn sample, k=n gives a maximum, k=1 gives the \
+drawn individual, error iff empty / k>n; plus exhaustive tournaments over all populations of <=4 individuals with keys in {0,1,2} \
+and a measured rank histogram of tournament winners against C(r,k-1)/C(n,k); non-trivial = population of at least 2 individuals; \
 distinct by request line and seed";
 
-fn gen_case(rng: &mut SplitMix) -> (bool, SelCfg, Vec<(i64, Vec<i64>)>) {
+fn gen_case(rng: &mut SplitMix) -> (bool, Leaf, PopRaw) {
     let score = rng.chance(1, 2);
-    let n = match rng.below(10) { 0 => 0, 1 => 1, 2 => 2, _ => 1 + rng.below(12) } as usize;
-    let spread = *rng.pick(&[1u64, 2, 3, 5, 100]);
-    let pop: Vec<(i64, Vec<i64>)> = (0..n).map(|_| {
-        let rs: Vec<i64> = (0..rng.below(4)).map(|_| rng.below(spread) as i64 - 1).collect();
-        (rs.iter().sum::<i64>() + if rng.chance(1, 4) { rng.below(3) as i64 } else { 0 }, rs)
-    }).collect();
-    let sel = match rng.below(6) {
-        0 => SelCfg::Best,
-        1 => SelCfg::Worst,
-        2 => SelCfg::Random,
+    let pop = gen_pop(rng, 12, 2, false);
+    let n = pop.len();
+    let sel = match rng.below(7) {
+        0 => Leaf::Best,
+        1 => Leaf::Worst,
+        2 => Leaf::Random,
         _ => {
             let k = match rng.below(6) { 0 => 1, 1 => n.max(1), 2 => n + 1, _ => 1 + rng.below(n as u64 + 1) as usize };
-            SelCfg::Tournament(k)
+            Leaf::Tournament(k)
         }
     };
     (score, sel, pop)
 }
 
+/// value by which the individuals are ordered (bigger = better)
+fn value(score: bool, pop: &PopRaw, i: usize) -> i64 {
+    if score { pop[i].0 } else { -pop[i].0 }
+}
+
+/// One tape-level case: real vs. model, plus oracles. `sample` is what `choose_multiple` yields on
+/// this stream (computed by the harness itself, independently of the model).
+fn one_case(d: &mut crate::driver::Driver, r: &mut Report, prop: &str, tag: &str, score: bool, sel: &Leaf, pop: &PopRaw, mut real_rng: SplitMix, count: bool) {
+    // which property's oracles may raise a violation (the Impl comparison always runs)
+    let c06 = prop.is_empty() || prop == "C06";
+    let c07 = prop.is_empty() || prop == "C07";
+    let req = format!("sel {} {} | {}", if score { "score" } else { "error" }, sel.token(), pop_tokens(pop));
+    let mut shadow = real_rng.clone();
+    let mut second = real_rng.clone();
+    let mut oracle_rng = real_rng.clone();
+    let start = real_rng.clone();
+    let real = if score {
+        let p = mk_score(pop);
+        let a = run_real(sel, &p, &mut real_rng);
+        let b = run_real(sel, &p, &mut second);
+        if a != b || real_rng != second {
+            r.violate(json!({"case": req, "what": "two runs from equal generator states differ (C16)", "first": a, "second": b}));
+        }
+        a
+    } else {
+        run_real(sel, &mk_error(pop), &mut real_rng)
+    };
+    let model = d.ask_with(&req, |p| prims::answer(p, &mut shadow, &mut prims::no_user));
+    let consumed = real_rng.words;
+    if count {
+        r.case(&format!("{req}#{tag}"), pop.len() >= 2);
+        r.hit(&format!("sel {} -> {}", sel.kind(), real.split(' ').next().unwrap()));
+        r.sample(json!({"request": req, "real": real, "rng_words": consumed - start.words}));
+    }
+    let same_stream = real_rng.next_u64() == shadow.next_u64();
+    if real != model || !same_stream {
+        r.disagree(json!({"case": req, "tag": tag, "real": real, "impl": model, "same_generator_state_after": same_stream}));
+    }
+    // ---- property oracles (real result only) ----
+    let n = pop.len();
+    let viol = |r: &mut Report, what: &str| r.violate(json!({"case": req, "tag": tag, "what": what, "real": real}));
+    if real == "panic" {
+        viol(r, "selector panicked");
+        return;
+    }
+    if real.contains("NOT-A-MEMBER") {
+        viol(r, "returned reference is not an element of the population");
+        return;
+    }
+    let ok: Option<usize> = real.strip_prefix("ok ").map(|x| x.parse().unwrap());
+    if c06 { match sel {
+        Leaf::Best | Leaf::Worst | Leaf::Random => {
+            if (n == 0) != (real == "err EmptyPopulation") { viol(r, "EmptyPopulation must be reported exactly for the empty population"); }
+        }
+        Leaf::Tournament(k) => {
+            let exp = format!("err TournamentSize({k},{n})");
+            if (n < *k) != (real == exp) { viol(r, "TournamentSize(k,n) must be reported exactly when k > n"); }
+        }
+        _ => {}
+    } }
+    if !c07 { return; }
+    if let Some(w) = ok {
+        let v = |i: usize| value(score, pop, i);
+        match sel {
+            Leaf::Best => if (0..n).any(|j| v(j) > v(w)) { viol(r, "Best returned a non-maximal individual"); },
+            Leaf::Worst => if (0..n).any(|j| v(j) < v(w)) { viol(r, "Worst returned a non-minimal individual"); },
+            Leaf::Tournament(k) => {
+                let others = (0..n).filter(|&j| j != w && v(j) <= v(w)).count();
+                if others + 1 < *k { viol(r, "tournament winner is not at least as good as k-1 other members"); }
+                if *k == n && (0..n).any(|j| v(j) > v(w)) { viol(r, "tournament over the whole population did not return a maximum"); }
+                let idx: Vec<usize> = (0..n).collect();
+                let sample: Vec<usize> = idx.choose_multiple(&mut oracle_rng, *k).copied().collect();
+                let best = sample.iter().map(|&j| v(j)).max();
+                if Some(v(w)) != best { viol(r, &format!("winner is not the best of the k individuals drawn by choose_multiple on this stream (sample {sample:?})")); }
+                if *k == 1 && sample != vec![w] { viol(r, "tournament of size 1 is not the drawn individual"); }
+            }
+            _ => {}
+        }
+    }
+}
+
+fn choose(n: u64, k: u64) -> f64 {
+    if k > n { return 0.0; }
+    (0..k).fold(1.0, |a, i| a * (n - i) as f64 / (i + 1) as f64)
+}
+
+/// Measured distribution of the tournament winner's rank on distinct values (real code only):
+/// recorded in the histogram, and an exact-law test with a tiny false-alarm budget (|z| > 7).
+fn law_block(r: &mut Report, seed: u64, runs: u64) {
+    for &(n, k) in &[(6usize, 1usize), (6, 2), (6, 3), (6, 6), (9, 4)] {
+        // values are a fixed permutation so that position and rank differ
+        let keys: Vec<i64> = (0..n).map(|i| ((i * 5 + 2) % n) as i64).collect();
+        let pop: PopRaw = keys.iter().map(|&k| (k, vec![])).collect();
+        let p = mk_score(&pop);
+        let mut counts = vec![0u64; n];
+        let mut rng = SplitMix::derive(seed ^ 0x7A11, (n * 100 + k) as u64);
+        for _ in 0..runs {
+            let s = run_real(&Leaf::Tournament(k), &p, &mut rng);
+            if let Some(w) = s.strip_prefix("ok ") { counts[keys[w.parse::<usize>().unwrap()] as usize] += 1; }
+        }
+        for rank in 0..n {
+            let pr = choose(rank as u64, k as u64 - 1) / choose(n as u64, k as u64);
+            let exp = pr * runs as f64;
+            let sd = (runs as f64 * pr * (1.0 - pr)).sqrt();
+            let z = if sd > 0.0 { (counts[rank] as f64 - exp) / sd } else if (counts[rank] as f64 - exp).abs() < 0.5 { 0.0 } else { f64::INFINITY };
+            r.hit_n(&format!("law n={n} k={k} rank={rank} expected={:.1}", exp), counts[rank]);
+            r.case(&format!("law {n} {k} {rank}"), true);
+            if z.abs() > 7.0 {
+                r.violate(json!({"case": format!("tournament {k} on {n} distinct values, {runs} runs, seed {seed}"), "what": format!("winner of rank {rank} observed {} times, the law C(r,k-1)/C(n,k) gives {:.1} (z = {:.1})", counts[rank], exp, z), "real": counts}));
+            }
+        }
+    }
+}
+
 pub fn run(cfg: &Cfg) -> Report {
-    let n: u64 = if cfg.thorough { 200_000 } else { 8_000 };
+    let n: u64 = if cfg.thorough { 3000000 } else { 60000 };
     let seed = cfg.seed;
-    run_sharded(&cfg.driver, cfg.threads, n, || Report::new("sel", RULE), |d, r, i| {
+    let prop = cfg.prop.as_str();
+    let mut rep = run_sharded(&cfg.driver, cfg.threads, n, || Report::new("sel", RULE), |d, r, i| {
         let mut g = SplitMix::derive(seed, i);
         let (score, sel, pop) = gen_case(&mut g);
-        let req = format!(
-            "sel {} {} | {}",
-            if score { "score" } else { "error" },
-            sel.token(),
-            pop.iter().map(|(k, rs)| format!("{k}:{}", rs.iter().map(|x| x.to_string()).collect::<Vec<_>>().join(","))).collect::<Vec<_>>().join(" ")
-        );
-        let mut real_rng = SplitMix::derive(seed ^ 0xABCD, i);
-        let mut shadow = real_rng.clone();
-        let mut second = real_rng.clone();
-        let real = if score {
-            let p: Vec<IndS> = pop.iter().enumerate().map(|(j, (k, rs))| EcIndividual::new(j, TestResults { results: rs.iter().map(|x| Score(*x)).collect(), total_result: Score(*k) })).collect();
-            let a = run_real(&sel, &p, &mut real_rng);
-            let b = run_real(&sel, &p, &mut second);
-            if a != b || real_rng != second { r.violate(json!({"case": req, "what": "two runs from equal generator states differ (C16)", "first": a, "second": b})); }
-            a
-        } else {
-            let p: Vec<IndE> = pop.iter().enumerate().map(|(j, (k, rs))| EcIndividual::new(j, TestResults { results: rs.iter().map(|x| Error(*x)).collect(), total_result: Error(*k) })).collect();
-            run_real(&sel, &p, &mut real_rng)
-        };
-        let model = d.ask_with(&req, |p| prims::answer(p, &mut shadow, &mut prims::no_user));
-        let consumed = real_rng.words;
-        r.case(&format!("{req}#{i}"), pop.len() >= 2 && consumed > 0);
-        r.hit(&format!("sel {} -> {}", sel.token().split(' ').next().unwrap(), real.split(' ').next().unwrap()));
-        r.sample(json!({"request": req, "real": real, "rng_words": consumed}));
-        let same_stream = real_rng.next_u64() == shadow.next_u64();
-        if real != model || !same_stream {
-            r.disagree(json!({"case": req, "seed_index": i, "real": real, "impl": model, "same_generator_state_after": same_stream}));
+        one_case(d, r, prop, &i.to_string(), score, &sel, &pop, SplitMix::derive(seed ^ 0xABCD, i), true);
+    });
+    // exhaustive small scope: all populations of 1..=4 individuals with keys in {0,1,2}, every k, several streams
+    let pops: Vec<Vec<i64>> = (1..=4usize).flat_map(|n| (0..3usize.pow(n as u32)).map(move |c| (0..n).map(|j| ((c / 3usize.pow(j as u32)) % 3) as i64).collect())).collect();
+    let streams: u64 = if cfg.thorough { 24 } else { 4 };
+    let total = pops.len() as u64;
+    let ex = run_sharded(&cfg.driver, cfg.threads, total, || Report::new("sel", RULE), |d, r, i| {
+        let keys = &pops[i as usize];
+        let pop: PopRaw = keys.iter().map(|&k| (k, vec![])).collect();
+        for k in 1..=keys.len() {
+            for s in 0..streams {
+                for score in [true, false] {
+                    one_case(d, r, prop, &format!("ex{i}-{s}"), score, &Leaf::Tournament(k), &pop, SplitMix::derive(seed ^ 0xE0E0, i * 64 + s), s == 0);
+                }
+            }
         }
-        if real == "panic" {
-            r.violate(json!({"case": req, "what": "selector panicked", "real": real}));
+        for sel in [Leaf::Best, Leaf::Worst] {
+            for score in [true, false] {
+                one_case(d, r, prop, &format!("ex{i}"), score, &sel, &pop, SplitMix::derive(seed ^ 0xE0E1, i), true);
+            }
         }
-    })
+        r.hit("exhaustive population (<=4 individuals, keys in {0,1,2}) x every k");
+    });
+    rep.merge(ex);
+    if prop.is_empty() || prop == "C07" { law_block(&mut rep, seed, if cfg.thorough { 1000000 } else { 50000 }); }
+    rep.notes.push("exhaustive scope: all 120 populations of 1..=4 individuals with keys in {0,1,2}, every tournament size, both polarities".into());
+    rep
 }
